@@ -8,4 +8,22 @@ NOTES = {
   "note": "Trusted: Lean kernel; translator; harness/zoo generator; bzip2 and AES-GCM are parameters of the container model; host little-endian x86-64. Hypotheses of the theorem (truthful bulk annotations, documented size limits) are explicit and have a concrete witness.",
   "technique": "Lean 4 theorem (mutual structural induction) + differential correspondence with the real crates",
  },
+ "C02": {
+  "text": "The documented format is the model's encoder; its byte layout (header, little-endian fixed-width primitives, 64-bit length prefixes, option/result tags, declaration order, discriminant = index in the declared width) is stated as Lean theorems, and every table-shaped fact of the code (widths, endianness, tags, header constants, discriminant-width rule) is regenerated from the Rust source on each run and proved equal to the pinned golden tables, so a consistent change of writer and reader is a failing obligation; the implementation's bytes are compared with the model's on a type zoo.",
+  "design_ref": "§4.1, §6 C02",
+  "note": "Trusted: Lean kernel; translator and pinned tables; harness. Forward readability by later builds is argued through pinned-table equality plus byte equality with the model, not through files from other builds.",
+  "technique": "Lean 4 theorems about the format + decide-proved table obligations regenerated from source + differential correspondence",
+ },
+ "C06": {
+  "text": "The decoder model returns panic/ub outcomes exactly where the Rust code would panic or materialise an invalid value; Lean theorems (dec_safe by mutual induction over the grammar, all byte strings) show these outcomes unreachable in a repaired build for every grammar whose bulk-read element types have no invalid bit patterns, and bound the number of returned elements by the bytes consumed. The bulk bool/char/enum case is a proved counter-example and a recorded finding. Outcome classes (value / error class / panic / invalid bits / abort) are compared with the real code on mutated and random streams, each case run in a forked child.",
+  "design_ref": "§6 C06",
+  "note": "Partial: memory safety itself is a runtime notion; the model proves no marked site is reachable and the marking is validated by outcome-class correspondence. Sequences of zero-sized elements with hostile lengths are outside what the suite observes. Allocation failure on absurd declared lengths is exempt by the property.",
+  "technique": "Lean 4 reachability theorem over a failure-annotated decoder model + differential fuzz correspondence",
+ },
+ "C07": {
+  "text": "A Lean theorem shows that any loader that is monotone in its input (proved for the wire decoder, for load of every type at every version, for the header and for the plain/schema-less file loader) and consumes a complete file exactly cannot succeed on a strict prefix; all four containers are additionally cut at every offset against the real code.",
+  "design_ref": "§6 C07",
+  "note": "Compressed and encrypted containers: bzip2 and AES-GCM are parameters; for them the every-cut enumeration on the real code is the tie, the theorem covers framing only (see C14). Schema-section monotonicity is a hypothesis discharged in C13.",
+  "technique": "Lean 4 theorem (monotonicity + exact consumption) + exhaustive cut enumeration against the real crates",
+ },
 }
